@@ -64,7 +64,7 @@ type Decl struct {
 	Table     string
 	EventName string
 	Inputs    []refmodel.Field  // event inputs (nil = no event)
-	InFilter  map[string]Filter // filters on top-level inputs, by input name
+	InFilter  map[string]Filter // filters on top-level inputs, by input name; on a component of a tuple input, by its path ("/d/to")
 	ColTypes  map[string]string // column type of every selected event column
 	Block     []BlockField
 	Sources   []SrcRef
@@ -131,6 +131,10 @@ func filterJSON(m map[string]any, f Filter) {
 }
 
 func inputsJSON(fs []refmodel.Field, filters map[string]Filter, top bool) []any {
+	return inputsJSONAt(fs, filters, top, "")
+}
+
+func inputsJSONAt(fs []refmodel.Field, filters map[string]Filter, top bool, path string) []any {
 	var res []any
 	for _, f := range fs {
 		m := map[string]any{"name": f.Name, "type": f.Type.JSONType()}
@@ -141,10 +145,15 @@ func inputsJSON(fs []refmodel.Field, filters map[string]Filter, top bool) []any 
 			m["column"] = f.Column
 		}
 		if b := f.Type.Base(); b.Kind == refmodel.KTuple {
-			m["components"] = inputsJSON(b.Fields, nil, false)
+			m["components"] = inputsJSONAt(b.Fields, filters, false, path+"/"+f.Name)
 		}
 		if top && filters != nil {
 			if fl, ok := filters[f.Name]; ok {
+				filterJSON(m, fl)
+			}
+		}
+		if !top && filters != nil {
+			if fl, ok := filters[path+"/"+f.Name]; ok {
 				filterJSON(m, fl)
 			}
 		}
@@ -597,6 +606,8 @@ func ProjectBlock(d *Decl, src string, chainID uint64, b *simnode.Block, look Re
 						v := typed(lf.Leaf, cellrow[ci])
 						ev[lf.Field.Column] = v
 						if fl, ok := d.InFilter[lf.Field.Name]; ok && lf.Path == "/"+lf.Field.Name {
+							a.add(acceptOne(fl, v, look))
+						} else if fl, ok := d.InFilter[lf.Path]; ok && strings.Count(lf.Path, "/") > 1 {
 							a.add(acceptOne(fl, v, look))
 						}
 					}
